@@ -151,6 +151,13 @@ func (x *Exec) callValue(fr *Frame, st *State, c *ssa.CallCommon, fval Value, ar
 			return
 		}
 	}
+	if fn.Name() == "init" && fn.Synthetic == "package initializer" && fn != fr.fn {
+		// the initialiser of an imported package: it cannot reach the package-level variables of the
+		// package being initialised (import cycles are impossible), so it is a no-op here
+		x.note("imported package initialiser treated as a no-op: " + key)
+		ret(fr, st, nil)
+		return
+	}
 	if isLoggingKey(key) {
 		x.note("intrinsic logging call treated as effect-free: " + key)
 		ret(fr, st, x.freshResult(st, x.resultType(c), "log"))
